@@ -1641,8 +1641,8 @@ class FnTranslator:
                                          paren_ty(tuple_ty(out_tys)))
         lines = [sig + " do"]
         emit_code(code, 2, lines)
-        if self.n_while != len(self.fuels):
-            self.err("the spec gives %d fuel expressions, the function has %d `while` loops" % (len(self.fuels), self.n_while))
+        # fewer `while` loops than fuel expressions: the text changed shape; the translation is still determined (the
+        # surplus expressions are unused), the equality theorem decides.  More loops than expressions was an error above.
         return self.helpers, "\n".join(lines), [v for v in ret_fields], tail
 
 
